@@ -115,9 +115,10 @@ func c14Walk(c *Ctx, viol func(clause, detail string), uncast, cast interface{},
 		if deepEq(want, cast) {
 			return true
 		}
-		if ambiguousKey && deepEq(refCast(u, cc, elemKey), cast) {
-			return true
-		}
+		// (until the fourth bug-hunt round a text that precedes child elements in an element without attributes was
+		// allowed to be judged under the element's key as well - what the implementation did; the leaf is stored
+		// under the text key, and that is the key the property's "text-key position" and the skip function speak of)
+		_ = ambiguousKey
 		viol("leaf-cast", fmt.Sprintf("text %q stored under %q: expected %s, got %s", u, key, dump(want), dump(cast)))
 		return false
 	default:
@@ -209,7 +210,7 @@ func c14Check(c *Ctx, doc string, cfg Cfg, seq bool) (nontrivial bool) {
 func c14Run(c *Ctx) {
 	mustBeDefault(c)
 	c.S.Rule = "cases = (document template, leaf spelling, cast options, skip function, decoder): templates put the spelling in element, attribute, text-key (beside an attribute), text-before-child, text-after-child, list-member, root and sibling positions; spellings = integers incl. 64-bit boundaries, decimal/exponent/hex floats, overflowing numerals, every case variant and signed spelling of nan/inf plus infinity spellings, booleans accepted and rejected by ParseBool, ordinary text; all 16 combinations of cast-to-int/float/bool/NaN-Inf x skip function {none, element key, attribute key, text key} x {simple-as-map off,on} x {Map, MapSeq decoder}; plus histories: for 4 templates x every spelling, all 16 cast combinations in descending then ascending order within one process, each with its setters called in every order (up to 24). Oracle: same structure and keys as the uncast decode, uncast leaves are strings, each cast leaf equals the documented cast of its text, Json() of the cast Map succeeds unless CastNanInf is on, x2j-wrapper.DocToJson agrees. non-trivial = casting changed at least one leaf."
-	c.S.Assumptions = []string{"skip function for text preceding child elements in an element without attributes may be shown the element key or the text key", "the sequence decoder never consults the skip function (documented)"}
+	c.S.Assumptions = []string{"the sequence decoder never consults the skip function (documented)"}
 	tmpl := []string{
 		`<r><k>S</k></r>`, `<r><e k="S"/></r>`, `<r><k x="1">S</k></r>`, `<r><k>S<c/></k></r>`, `<r><k><c/>S</k></r>`,
 		`<r><k>S</k><k>S</k></r>`, `<k>S</k>`, `<r><a>1</a><k>S</k><b>true</b></r>`, `<r k="S" x="2">S</r>`, `<r><k x="S">S<c>S</c></k></r>`,
